@@ -72,10 +72,37 @@ Theorem C10_future_tip : forall cfg s d h pick, cfg_ok cfg -> Inv s -> K (nodes 
   snd (submit cfg (fst (clean s d)) h pick) = snd (submit cfg s h pick).
 Proof. exact clean_then_extend_tip. Qed.
 Print Assumptions C10_future_tip.
-(* Not proved: the same for a header that starts a NEW fork at a best-chain header (the fork-depth
-   rule looks at branch-continuation flags, which Clean rearranges on the best chain), and for
-   whole sequences of later submissions; decided by the correspondence check with a clean-free
-   control run. *)
+(* every submission that attaches within the fork-depth limit - to a side branch, to the tip, or
+   as a NEW fork at a best-chain header: with the prune depth at least the fork-depth limit (10000
+   against 144 in the implementation) the parent is still held in memory after the Clean and the
+   verdict and the announcement are the same with and without it *)
+Theorem C10_future_within_limit : forall cfg s d h pick p, cfg_ok cfg -> Inv s -> K (nodes s) ->
+  (c_maxdepth cfg <= d)%Z -> (0 <= d)%Z ->
+  op_ok s (OSubmit h pick) ->
+  find_mem (nodes s) (h_prev h) = Some p -> (tip_height s - n_height p <= c_maxdepth cfg)%Z ->
+  snd (submit cfg (fst (clean s d)) h pick) = snd (submit cfg s h pick).
+Proof. exact clean_then_attach_within. Qed.
+Print Assumptions C10_future_within_limit.
+(* Beyond the limit the statement is false of the model and of the code, and the property does not
+   claim it: a new fork at the last header of a branch that lost its continuation to an
+   invalidation continues that branch before the Clean and is a too-deep new branch after it.
+   Not proved: the same for whole sequences of later submissions; decided by the correspondence
+   check with a clean-free control run. *)
+
+(* non-vacuity: in the example's final state header 4 is a best-chain header below the tip, held
+   in memory, one below the tip; a new fork 6 at it is accepted after a Clean as before it *)
+Example C10_future_within_example :
+  let s := final ex_cfg ex_g ex_ops in
+  let h := mkHdr 6 4 486604799 1231008306 in
+  (exists p, find_mem (nodes s) (h_prev h) = Some p /\ (tip_height s - n_height p <= c_maxdepth ex_cfg)%Z) /\
+  (is_anc (nodes s) 4 (tip s) = true) /\ (tip s <> 4) /\
+  (snd (submit ex_cfg (fst (clean s 5)) h 5) = RSubmit VOk nil) /\
+  (snd (submit ex_cfg s h 5) = RSubmit VOk nil).
+Proof.
+  cbv zeta. split; [eexists; split; [vm_compute; reflexivity|vm_compute; discriminate]|].
+  split; [vm_compute; reflexivity|]. split; [vm_compute; discriminate|].
+  split; vm_compute; reflexivity.
+Qed.
 
 Example C10_example : tip (fst (clean (final ex_cfg ex_g ex_ops) 0)) = 5 /\
   exists n, find 1 (nodes (fst (clean (final ex_cfg ex_g ex_ops) 0))) = Some n /\ n_mem n = false.
